@@ -22,8 +22,8 @@ RULE = (
     'profile restriction, operation) tuples reached'
 )
 ASSUMPTIONS = ['re-adding a name that is still registered and defaultProfiles naming an unregistered profile are API misuse and not generated']
-MIN_EVENTS = {'quick': {'oracle.step': 4000, 'oracle.add-remove-restores': 250, 'oracle.unknown-removal': 150, 'histories': 500},
-              'thorough': {'oracle.step': 100000, 'oracle.add-remove-restores': 6000, 'oracle.unknown-removal': 4000, 'histories': 12000}}
+MIN_EVENTS = {'quick': {'oracle.step': 2500, 'oracle.add-remove-restores': 250, 'oracle.unknown-removal': 150, 'histories': 500},
+              'thorough': {'oracle.step': 60000, 'oracle.add-remove-restores': 6000, 'oracle.unknown-removal': 4000, 'histories': 12000}}
 
 CUSTOM = {
     'P1': ({'x-one': '{int}|a|b'}, None),
